@@ -267,8 +267,7 @@ pub fn c14_check(dt: &DateTime, ns: Option<u32>, origin: &'static str) -> bool {
     C14_LOCAL.with(|c| c.set(c.get() + 1));
     let y = dt.year() as i64;
     let shifted = dt.unix_time() as i128 + dt.local_time_type().ut_offset() as i128;
-    let ok_fields = cal::valid_civil(y, dt.month(), dt.month_day(), dt.hour(), dt.minute(), dt.second(), 0)
-        && cal::unix_from_civil(y, dt.month(), dt.month_day(), dt.hour(), dt.minute(), dt.second()) as i128 == shifted;
+    let ok_fields = cal::valid_civil(y, dt.month(), dt.month_day(), dt.hour(), dt.minute(), dt.second(), 0) && cal::unix_from_civil(y, dt.month(), dt.month_day(), dt.hour(), dt.minute(), dt.second()) as i128 == shifted;
     let days = if ok_fields { cal::days_from_civil(y, dt.month() as u32, dt.month_day() as i64) } else { 0 };
     let ok_derived = !ok_fields || (dt.week_day() == cal::weekday_of_days(days) && dt.year_day() as i64 == days - cal::days_from_civil(y, 1, 1));
     let ok_ns = ns.map(|n| n == dt.nanoseconds()).unwrap_or(true);
@@ -402,6 +401,16 @@ fn check_found(k: &FoundDateTimeKind, ns: u32, origin: &'static str) {
     match k {
         FoundDateTimeKind::Normal(d) => {
             c14_check(d, Some(ns), origin);
+            // a valid entry is a construction from fields and a local time type: it is the value DateTime::new gives
+            // for the same fields and type, and is not returned where DateTime::new refuses (supported range)
+            match DateTime::new(d.year(), d.month(), d.month_day(), d.hour(), d.minute(), d.second(), d.nanoseconds(), *d.local_time_type()) {
+                Ok(w) => {
+                    if w.unix_time() != d.unix_time() {
+                        side("C14 invariant: a valid search result differs from DateTime::new of the same fields and type", format!("value returned by {}", origin), fmt_dt(&w), fmt_dt(d));
+                    }
+                }
+                Err(e) => side("C14 invariant: the search returns a value that DateTime::new refuses for the same fields and type", format!("value returned by {}", origin), format!("Err({:?})", tz_err(&e)), fmt_dt(d)),
+            }
         }
         FoundDateTimeKind::Skipped { before_transition, after_transition } => {
             c14_check(before_transition, Some(ns), origin);
